@@ -379,9 +379,13 @@ func init() {
 				nRand = 2000000
 			}
 			np := int64(len(c03Probes))
-			return &fw.Plan{N: nTable + np + nRand,
+			return &fw.Plan{N: nTable + np + nRand + 1,
 				Subspaces: []string{fmt.Sprintf("operator table: all %d (operator, lhs kind, rhs kind, lhs value, rhs value, supply mode) combinations", nTable)},
 				Run: func(i int64, r *fw.Rec) {
+					if i == nTable+np+nRand {
+						c03LargestRange(r)
+						return
+					}
 					var tree jast.Node
 					var doc O
 					var tag string
@@ -473,4 +477,23 @@ func modelCheck(r *fw.Rec, tree jast.Node, doc interface{}, tag string, op judge
 	}
 	r.Violation(sig, res.Detail, map[string]any{"tag": tag})
 	return o, false
+}
+
+
+// c03LargestRange: the largest range that is not an error has exactly ten
+// million items (the port alone is run: building the range a second time in the
+// model would double a memory footprint of several hundred megabytes).
+func c03LargestRange(r *fw.Rec) {
+	prog := "$count([-4999999..5000000])"
+	r.Begin(prog, "")
+	r.Tag("probe:largest-range")
+	r.Nontrivial(prog)
+	o := obs.Run(prog, nil)
+	r.Outcome(o.Class())
+	want := 10000000.0
+	if o.Kind != "value" || !obs.Equal(obs.Normalize(o.Val, nil), want) {
+		r.Violation("range-limit:ten-million-items-rejected", "a range of exactly 10 000 000 items is within the limit (only more than ten million is an error), but "+prog+" gave "+o.String(), nil)
+		return
+	}
+	r.Held()
 }
